@@ -484,6 +484,6 @@ mod test {
 
 #[cfg(kani)]
 #[allow(warnings, clippy::all, clippy::pedantic)]
-mod verif_kani {
+pub(crate) mod verif_kani {
     include!(concat!(env!("IPA_VERIF_DIR"), "/harness/send.rs"));
 }
